@@ -80,7 +80,10 @@ def map_isolated(target, items, flavour="plain", nproc=16, timeout=1800):
                     # abnormal end: the started-but-unfinished item is the culprit
                     culprit = started if started in rest else rest[0]
                     with open(errf) as fh:
-                        err = fh.read()[-3000:]
+                        err = fh.read()
+                    # keep the informative part of a sanitizer report (its head), not the shadow-byte legend
+                    k = max(err.find("ERROR: AddressSanitizer"), err.find("runtime error"))
+                    err = err[k:k + 3000] if k >= 0 else err[-3000:]
                     results[culprit] = {"crash": "exit=%s" % rc, "stderr": err}
                     rest = [i for i in rest if i != culprit]
                     if rest:
